@@ -6,7 +6,8 @@ steps for arbitrary real temperatures:
   height   = this plane's z when the old peak is strictly exceeded, unchanged otherwise
   duct     : region duct d (of n) updates entry len(peaks) - n + d, all other entries untouched
   pins     : per location column, value fold-max; the stored radial profile is the row of the
-             arg-max pin at this plane (with this plane's z); untouched when not exceeded
+             arg-max pin at this plane (with this plane's z); untouched when not exceeded; the stored
+             profile is owned by _peak (unchanged when region.pin_temps is overwritten in place afterwards)
 The statement over a whole sweep follows by induction over the steps (fold of max).
 """
 from __future__ import annotations
@@ -148,7 +149,18 @@ def pins(S, cfg):
                 row = row & (new_prof[j] == want) if S.mode == 'sym' else row and (new_prof[j] == want)
             alts = alts | row if S.mode == 'sym' else alts or row
         S.holds(f'pin.profile_is_row_of_argmax[{k}]', alts)
-    S.holds('canary.pin_profile_always_first_pin', asm._peak['pin'][keys[0]][2][2] == 0, canary=True)
+    # ownership: the stored profile belongs to _peak - the in-place overwrite of region.pin_temps by the next
+    # axial step (pin temperatures are recomputed into the same array) must not reach it
+    snap = {k: [x for x in asm._peak['pin'][k][2]] for k in keys}
+    tp2 = S.vec('tp_next', (npin, 9), 'pos', 400.0, 450.0)
+    for p in range(npin):
+        for j in range(9):
+            tp[p, j] = tp2[p, j]
+    for k in keys:
+        prof = asm._peak['pin'][k][2]
+        for j in range(9):
+            S.eq(f'pin.profile_owned[{k},{j}]', prof[j], snap[k][j])
+    S.holds('canary.pin_profile_always_first_pin', snap[keys[0]][2] == 0, canary=True)
 pins.cname = 'Assembly._update_peak_pin_temps'
 pins.run_kw = dict(pool_size=12, max_paths=400)
 
